@@ -11,6 +11,20 @@ E2 = "stateless model checking: exhaustive DFS of the choice tree of RNG answers
 E3 = "explicit-state BFS over operation histories of the real object, reference-model comparison in every state"
 
 CHECKS = {
+    "C09": dict(
+        built=True,
+        category="exploration",
+        engine="E1+E4",
+        technique=E1 + "; all small networks x all demands / balanced supply vectors, oracle = enumeration of all integral arc flows; "
+        "fuel for termination",
+        text="Ordered arc lists with parallel and anti-parallel arcs on 3 nodes (caps {0,1,2}, costs {-1,0,1,2}) and arc sets on 4 "
+        "nodes, filtered to networks without negative cycles, crossed with every (source, sink, demand 0..3) for min_cost_flow and "
+        "every balanced supply vector over {-2..2} for network_simplex; all r x c cost matrices (r,c<=3) for solve_assignment. "
+        "Integrality, pooled capacity, conservation, objective = cost of the returned flow = exact minimum, INFEASIBLE iff no "
+        "feasible flow, agreement of the two solvers, termination.",
+        note="Trusts: brute-force enumeration of arc flows (<= 81 per network). Bound: <= 4 nodes, <= 4 arcs, capacities <= 2.",
+        ref="2/C09",
+    ),
     "C04": dict(
         built=True,
         category="exploration",
